@@ -542,7 +542,9 @@ def mutate(case):
                 return None
             lines.insert(idx[0] + 1, "this line has no delimiter")
         else:
-            idx = [i for i, l in enumerate(lines) if l.startswith("[")]
+            # (a header that holds a delimiter - '[Table-Form:name' - would be a well-formed KEY : VALUE line of the
+            # section before it, i.e. still an INI file)
+            idx = [i for i, l in enumerate(lines) if l.startswith("[") and ":" not in l and "=" not in l]
             k = idx[site % len(idx)]
             lines[k] = lines[k].rstrip("]")
         return "\n".join(lines), op
